@@ -63,6 +63,28 @@ def run(check):
         elif j % 8 == 1:
             case["runs"] = [{"input": g["input"], "parallel": True, "tag": "r%d" % q} for q in range(3)]
         items.append((case, sem, g))
+    # expression functions evaluated by overlapping runs and by parallel loop items (the function objects are shared)
+    from ..model import Call, Bin, Lit
+    for j in range(check.pick(30, 150)):
+        rng = random.Random(derive_seed(check.seed, "c17-fn", j))
+        fexprs = {"ff": Call("floatToFormattedString", Call("intToFloat", In("n")), Lit("f"), Lit(3)), "fs": Call("floatToString", Call("intToFloat", In("n"))),
+                  "up": Call("toUpper", In("tag")), "is": Call("intToString", In("n")), "sp": Call("splitString", In("tag"), Lit("T")), "bc": Call("bindConstants", In("items"), In("tag")),
+                  "fe": Call("floatToFormattedString", Bin("*", Call("intToFloat", In("n")), Lit(1.5)), Lit("e"), Lit(5))}
+        if j % 2 == 0:
+            a = gen.plugin_step("a", Expr(Call("toUpper", In("tag"))))
+            prog = Program([a], {"success": dict({k: Expr(v) for k, v in fexprs.items()}, a=gen.tagref("a"))}, gen.BASE_INPUT)
+            g = {"program": prog, "scripts": gen.make_scripts([a], {}), "input": {"tag": "T", "n": 7, "items": [{"tag": "i0"}]}, "shape": "functions-in-overlapping-runs", "family": "functions", "outcome": {}}
+            case, sem = runfam.build_case("c17-n%04d" % j, g, no_events=True)
+            case["runs"] = [{"input": {"tag": "T%d" % q, "n": q, "items": [{"tag": "i%d" % q}]}, "parallel": True, "tag": "r%d" % q} for q in range(rng.choice([4, 8]))]
+        else:
+            sub = Program([gen.plugin_step("w0", Expr(Call("toUpper", In("tag"))), src="sub_w0")],
+                          {"success": {"t": gen.tagref("w0"), "ff": Expr(Call("floatToFormattedString", Lit(2.5), Lit("f"), Lit(3))), "fs": Expr(Call("floatToString", Lit(0.125))), "lo": Expr(Call("toLower", In("tag")))}},
+                          gen.SUB_INPUT, name="sub.yaml")
+            fe = Step("loop", "foreach", sub=sub, items=Expr(In("items")), parallelism=8)
+            prog = Program([fe], {"success": {"d": Expr(Ref("loop", "outputs", "success", "data"))}}, gen.BASE_INPUT)
+            g = {"program": prog, "scripts": gen.make_scripts([fe], {}), "input": {"tag": "T", "items": [{"tag": "i%d" % q} for q in range(16)]}, "shape": "functions-in-parallel-loop-items", "family": "functions", "outcome": {}}
+            case, sem = runfam.build_case("c17-n%04d" % j, g, no_events=True)
+        items.append((case, sem, g))
     # stop conditions reaching a step while it waits for input, while it runs, and while it waits for its deployment configuration
     from . import c04
     for j in range(check.pick(45, 240)):
@@ -78,11 +100,19 @@ def run(check):
         items.append((case, sem, g))
     stats = {"families": {}}
     with harness.Runner(race=True) as rn:
-        cc = cancelfam.cancel_cases(check, rn, "c17c", check.pick(4, 12), check.pick(4, 14), kmax_quick=6)
+        cc = cancelfam.cancel_cases(check, rn, "c17c", check.pick(4, 12), check.pick(len(cancelfam.NEVER_ENDING), 3 * len(cancelfam.NEVER_ENDING)), kmax_quick=6)
         for c, s, g in cc:
             c["no_events"] = True
             g["family"] = "cancel"
         items += cc
+        # a loop with one failed item, cancelled while other items are still executing (what the loop has handed on must not
+        # be written any more)
+        for j in range(check.pick(24, 120)):
+            rng = random.Random(derive_seed(check.seed, "c17-partial", j))
+            prog, scripts, name = cancelfam.prog_foreach_partial(rng)
+            g = {"program": prog, "scripts": scripts, "input": cancelfam.base_input(rng), "shape": name, "family": "cancel-partly-failed-loop", "outcome": {}}
+            case, sem = runfam.build_case("c17-p%04d" % j, g, no_events=True, triggers=[{"kind": "exec-start", "src": "sub_w0", "nth": 2, "action": "cancel:0"}])  # two executions are certain (parallelism >= 2); which items get the slots is not
+            items.append((case, sem, g))
         out = rn.run_cases([c for c, _s, _g in items], per_case_timeout=75)
         # the very first parses of a process made by several goroutines at once (lazily built package-level state):
         # one child process per case
